@@ -14,7 +14,7 @@ INFO = {
         "scheduler/base.py:Scheduler.aio_start", "scheduler/base.py:experiment.__enter__ (second run)", "tokens.py:CounterToken._update/TokenFile.watch (file-token variant)",
     ],
     "bounds": {
-        "quick": {"jobs": "<=3 (one, chain2, indep2, chain3)", "death_point": "after 0..12 delivered events of the first run (one shard each; the events themselves are chosen symbolically)", "schedule": "3 symbolic choice points in each run, then FIFO", "death": "SIGKILL-like (loop, helper threads and locks of the scheduler vanish; job processes live on)"},
+        "quick": {"jobs": "<=3 (one, chain2, indep2, chain3)", "death_point": "after 0..12 delivered events of the first run (one shard each; the events themselves are chosen symbolically)", "schedule": "3 symbolic choice points in each run (2 for indep2/chain3), then FIFO", "death": "SIGKILL-like (loop, helper threads and locks of the scheduler vanish; job processes live on)"},
         "thorough": {"schedule": "5 choice points in each run", "jobs": "adds fork3/join3 and a file token"},
     },
     "stubs": schedlib.STUBS + ["a process handle obtained from a pid file by another process has no exit status (like psutil for a non-child): the scheduler then relies on the markers"],
@@ -134,7 +134,8 @@ def conditions(tier):
         ncut = {"one": 6, "chain2": 10, "indep2": 10}.get(sh, 12)
         for cut in range(ncut + 1):
             # the death point (number of delivered events) is enumerated by the shard
-            conds.append({"name": f"restart/{sh}/cut{cut}", "func": "restart", "shard": {"shape": sh, "K": K, "cut": cut}, "timeout": tmo})
+            k = K if (tier == "thorough" or sh in ("one", "chain2")) else 2
+            conds.append({"name": f"restart/{sh}/cut{cut}", "func": "restart", "shard": {"shape": sh, "K": k, "cut": cut}, "timeout": tmo})
     if tier == "thorough":
         conds.append({"name": "restart-token/indep2", "func": "restart", "shard": {"shape": "indep2", "K": K, "token": [1, 1], "total": 1}, "timeout": tmo})
     return conds
